@@ -13,4 +13,10 @@ PROPS = {
     "C19": {"families": [fam("scale", 1, 1, seeds=2)]},
     "C04": {"families": [fam("c04.collide", 40, 400)]},
     "C03": {"families": [fam("c04.collide", 40, 400)]},
+    "C05": {"families": [fam("scale.hist", 1, 1, seeds=2)]},
+    "C01": {"families": [fam("scale.hist", 1, 1, seeds=2)]},
+    "C17": {"families": [fam("c17.memo", 40, 400)]},
+    # a rule and its $badfilter twin must both be FOUND by the engine for the twin to work: run the lookup scenarios
+    # (non-ASCII URLs whose lower-case form has another length included) here too
+    "C08": {"families": [fam("c01.matchall", 800, 8000, seeds=2)]},
 }
